@@ -516,14 +516,431 @@ def campaign_modpass(ck: Check, n: int) -> None:
     )
 
 
+# ------------------------------------------------------------------ end-to-end oracle
+E2E_KEYS = [
+    "Pet", "pet", "Pet_", "Pets-item", "Pets_item", "PetsItem", "Pets", "pets", "Pet1", "pet_1", "PetModel", "PET",
+    "Optional", "BaseModel", "Model", "Root", "class", "1pet", "_pet", "pet model", "Any", "List", "Field", "None",
+]
+CORE_KEYS = ["Pet", "pet", "Pet_", "Pets-item", "PetsItem", "Pet1", "PetModel", "Optional"]
+E2E_CONTAINERS = ["definitions", "$defs", "components/schemas"]
+WRAPPERS = {"Optional", "List", "Union", "Sequence", "NotRequired", "Required", "Annotated", "Set", "Dict", "Mapping"}
+
+
+def ref_to(case: dict, i_from: int | None, j: int, deep: bool = False) -> str:
+    """JSON reference from definition i_from (None = root object of main.json) to definition j"""
+    files = case.get("files") or [0] * len(case["keys"])
+    f_from = 0 if i_from is None else files[i_from]
+    file_part = "" if files[j] == f_from else ("other.json" if files[j] == 1 else "main.json")
+    return f"{file_part}#/{case['container']}/{case['keys'][j]}" + (f"/properties/sub{j}" if deep else "")
+
+
+def build_e2e_doc(case: dict) -> tuple[typing.Any, str]:
+    """case = {container, keys (document order), edges [[i, j, 'ref'|'array'|'deep']], root_refs [i…],
+    files (optional: 0 = main.json, 1 = other.json per definition)}.
+    Every definition i carries the marker member `mk{i}x`; the root object carries `mkrootx`; a definition
+    that is the target of a 'deep' edge has a nested object `sub{j}` with marker `mkd{j}x`.
+    Returns (document or {file name: document}, input file type)."""
+    cont, keys = case["container"], case["keys"]
+    files = case.get("files") or [0] * len(keys)
+    defs: list[dict] = [{}, {}]
+    for i, k in enumerate(keys):
+        defs[files[i]][k] = {"type": "object", "properties": {f"mk{i}x": {"type": "integer"}}}
+    for i, j, kind in case["edges"]:
+        props = defs[files[i]][keys[i]]["properties"]
+        if kind == "array":
+            props[f"a{i}to{j}"] = {"type": "array", "items": {"$ref": ref_to(case, i, j)}}
+        elif kind == "deep":
+            defs[files[j]][keys[j]]["properties"][f"sub{j}"] = {"type": "object", "properties": {f"mkd{j}x": {"type": "integer"}}}
+            props[f"d{i}to{j}"] = {"$ref": ref_to(case, i, j, deep=True)}
+        else:
+            props[f"r{i}to{j}"] = {"$ref": ref_to(case, i, j)}
+    if cont == "components/schemas":
+        return {"openapi": "3.0.0", "info": {"title": "t", "version": "1"}, "paths": {}, "components": {"schemas": defs[0]}}, "openapi"
+    props = {"mkrootx": {"type": "integer"}}
+    for i in case["root_refs"]:
+        props[f"rRto{i}"] = {"$ref": ref_to(case, None, i)}
+    main = {"title": "RootDoc", "type": "object", "properties": props, cont: defs[0]}
+    if 1 in files:
+        return {"main.json": main, "other.json": {cont: defs[1]}}, "jsonschema"
+    return main, "jsonschema"
+
+
+def run_generate_files(files: dict, model: str, timeout: float = 20.0) -> e2e.Result:
+    """like e2e.run_generate, for a main.json that references sibling files (single-file output)"""
+    import contextlib
+    import io
+    import os
+    import shutil
+    import tempfile
+    import warnings
+
+    import datamodel_code_generator as d
+
+    work = Path(tempfile.mkdtemp(dir=e2e.scratch_root()))
+    for name, doc in files.items():
+        (work / name).write_text(json.dumps(doc))
+    out = work / "out.py"
+    res = e2e.Result(ok=False)
+    cwd = os.getcwd()
+    t0 = time.time()
+    try:
+        with watchdog(timeout), warnings.catch_warnings(), contextlib.redirect_stderr(io.StringIO()):
+            warnings.simplefilter("ignore")
+            d.generate(work / "main.json", input_file_type=d.InputFileType.JsonSchema, output=out,
+                       output_model_type=d.DataModelType(model), formatters=[], disable_timestamp=True)
+        res.ok = True
+    except Hang as ex:
+        res.hang, res.error_type, res.error_msg = True, "Hang", str(ex)
+    except BaseException as ex:  # noqa: BLE001
+        if isinstance(ex, (KeyboardInterrupt, SystemExit)):
+            raise
+        res.error_type, res.error_msg = type(ex).__name__, str(ex)[:300]
+    finally:
+        if os.getcwd() != cwd:
+            os.chdir(cwd)
+    res.wall_s = time.time() - t0
+    if out.is_file():
+        res.files["out.py"] = out.read_text(encoding="utf-8")
+    shutil.rmtree(work, ignore_errors=True)
+    return res
+
+
+def ann_leaves(node) -> list[str]:
+    """class names an annotation points at, wrappers (`Optional[...]`, `List[...]`, `X | None`) removed"""
+    if isinstance(node, ast.Constant):
+        if isinstance(node.value, str):
+            try:
+                return ann_leaves(ast.parse(node.value, mode="eval").body)
+            except SyntaxError:
+                return [node.value]
+        return []
+    if isinstance(node, ast.Subscript):
+        return ann_leaves(node.slice)
+    if isinstance(node, ast.Tuple):
+        return [x for e in node.elts for x in ann_leaves(e)]
+    if isinstance(node, ast.BinOp):
+        return ann_leaves(node.left) + ann_leaves(node.right)
+    if isinstance(node, ast.Name):
+        return [node.id]
+    if isinstance(node, ast.Attribute):
+        return [ast.unparse(node)]
+    return []
+
+
+def class_table(code: str) -> list[tuple[str, dict]]:
+    """[(class name, {member: annotation AST})] for the top-level classes, in order; TypedDict functional
+    syntax (`X = TypedDict('X', {...})`) included."""
+    out = []
+    for node in ast.parse(code).body:
+        if isinstance(node, ast.ClassDef):
+            members = {}
+            for st in node.body:
+                if isinstance(st, ast.AnnAssign) and isinstance(st.target, ast.Name):
+                    members[st.target.id] = st.annotation
+            out.append((node.name, members))
+        elif isinstance(node, ast.Assign) and isinstance(node.value, ast.Call) and getattr(node.value.func, "id", "") == "TypedDict":
+            args = node.value.args
+            if len(args) == 2 and isinstance(args[1], ast.Dict) and isinstance(node.targets[0], ast.Name):
+                members = {k.value: v for k, v in zip(args[1].keys, args[1].values) if isinstance(k, ast.Constant)}
+                out.append((node.targets[0].id, members))
+    return out
+
+
+def key_class(k: str) -> str:
+    if k in ("Optional", "BaseModel", "Any", "List", "Field"):
+        return "import-name"
+    if k in ("class", "None"):
+        return "keyword"
+    if k in ("Model", "Root"):
+        return "root-like"
+    return "plain"
+
+
+def e2e_oracle(ck: Check, camp, case: dict) -> bool:
+    """The property's own oracle on one document. Returns True when it passed."""
+    camp.evaluations += 1
+    doc, ift = build_e2e_doc(case)
+    model = case.get("model", "pydantic_v2.BaseModel")
+    multi = isinstance(doc, dict) and "main.json" in doc
+    res = run_generate_files(doc, model) if multi else e2e.run_generate(doc, input_file_type=ift, model=model)
+    keys = case["keys"]
+    n = len(keys)
+    camp.hit("container:" + case["container"])
+    camp.hit("kind:" + model)
+    camp.hit(f"defs:{n}")
+    if multi:
+        camp.hit("cross-file")
+    for kind in {k for _, _, k in case["edges"]}:
+        camp.hit("edge:" + kind)
+    if any(i == j for i, j, _ in case["edges"]):
+        camp.hit("edge:self")
+    if any([j, i] in [[a, b] for a, b, _ in case["edges"]] and i != j for i, j, _ in case["edges"]):
+        camp.hit("edge:mutual")
+    base = {
+        "oracle": "e2e",
+        "container": case["container"],
+        "kind": model,
+        "key_classes": sorted({key_class(k) for k in keys}),
+    }
+
+    def fail(mech: str, observed: str) -> bool:
+        camp.hit("fail:" + mech)
+        ck.fail({**base, "mechanism": mech}, case, observed)
+        return False
+
+    if res.hang:
+        return fail("hang", "generate() did not return")
+    if not res.ok:
+        return fail("generation_error", f"{res.error_type}: {res.error_msg}")
+    err = e2e.parses(res.code)
+    if err:
+        return fail("unparsable", err)
+    table = class_table(res.code)
+    names = [c for c, _ in table]
+    if len(set(names)) != len(names):
+        return fail("duplicate_class_name", f"top-level classes {names}")
+    owner: dict[int, str] = {}
+    for i in range(n):
+        holders = [c for c, ms in table if f"mk{i}x" in ms]
+        if len(holders) != 1:
+            return fail("missing_class" if not holders else "merged_or_duplicated", f"definition {keys[i]!r}: classes carrying its marker: {holders}; classes: {names}")
+        owner[i] = holders[0]
+    expected = n + (1 if ift == "jsonschema" else 0)
+    if len(set(owner.values())) != n:
+        return fail("merged_or_duplicated", f"two definitions share a class: {owner}")
+    subs = {j for _, j, kind in case["edges"] if kind == "deep"}
+    # a nested object referenced by pointer may be emitted twice (inline + by reference): not a named schema
+    if not expected + len(subs) <= len(table) <= expected + 2 * len(subs):
+        return fail("extra_class", f"{len(table)} top-level classes for {n} definitions (+{len(subs)} nested): {names}")
+    members = dict(table)
+    checks = [(owner[i], (f"a{i}to{j}" if kind == "array" else f"r{i}to{j}"), j) for i, j, kind in case["edges"] if kind != "deep"]
+    for i, j, kind in case["edges"]:
+        if kind == "deep":
+            ann = members[owner[i]].get(f"d{i}to{j}")
+            leaves = [x for x in (ann_leaves(ann) if ann is not None else []) if x != "None" and x not in WRAPPERS]
+            if len(leaves) != 1 or f"mkd{j}x" not in members.get(leaves[0], {}):
+                return fail("ref_mislanded", f"{owner[i]}.d{i}to{j}: {ast.unparse(ann) if ann is not None else None} should name a class with member mkd{j}x")
+    if ift == "jsonschema":
+        root_cls = [c for c, ms in table if "mkrootx" in ms]
+        if len(root_cls) != 1:
+            return fail("missing_class", f"root class: {root_cls}")
+        checks += [(root_cls[0], f"rRto{i}", i) for i in case["root_refs"]]
+    for cls, member, j in checks:
+        ann = members[cls].get(member)
+        if ann is None:
+            return fail("member_missing", f"{cls}.{member} not emitted")
+        leaves = [x for x in ann_leaves(ann) if x != "None"]
+        inner = [x for x in leaves if x not in WRAPPERS or x == owner[j]]
+        if inner != [owner[j]]:
+            return fail("ref_mislanded", f"{cls}.{member}: {ast.unparse(ann)} should name {owner[j]} (definition {keys[j]!r})")
+    if model == "pydantic_v2.BaseModel":
+        try:
+            mod = e2e.load_module(res.code, model)
+        except BaseException as ex:  # noqa: BLE001
+            if isinstance(ex, (KeyboardInterrupt, SystemExit)):
+                raise
+            return fail("import_error", f"{type(ex).__name__}: {str(ex)[:200]}")
+        try:
+            for cls, member, j in checks:
+                target = getattr(mod, owner[j])
+                ann = getattr(mod, cls).model_fields[member].annotation
+
+                def flat(t):
+                    args = typing.get_args(t)
+                    return [t] if not args else [x for a in args for x in flat(a)]
+
+                got = [t for t in flat(ann) if t is not type(None)]
+                if got != [target] or f"mk{j}x" not in target.model_fields:
+                    return fail("ref_mislanded", f"{cls}.{member} resolves to {got}, expected class {owner[j]} of definition {keys[j]!r}")
+        finally:
+            e2e.unload(mod)
+    camp.distinct.add(json.dumps(case, sort_keys=True))
+    if len(camp.samples) < 2:
+        camp.samples.append(case)
+    return True
+
+
+def gen_e2e_case(rng: Rng) -> dict:
+    n = rng.range(2, 5)
+    pool = E2E_KEYS if rng.chance(1, 2) else CORE_KEYS
+    keys = rng.sample(pool, n)
+    edges = []
+    for i in range(n):
+        for j in range(n):
+            if rng.chance(1, 3):
+                edges.append([i, j, rng.choice(["ref", "ref", "ref", "ref", "array", "deep"])])
+    if not any(i == j for i, j, _ in edges) and rng.chance(1, 2):
+        edges.append([0, 0, "ref"])
+    case = {
+        "container": rng.choice(E2E_CONTAINERS),
+        "keys": keys,
+        "edges": edges,
+        "root_refs": [i for i in range(n) if rng.chance(1, 2)],
+        "model": rng.choice(["pydantic_v2.BaseModel"] * 5 + ["pydantic.BaseModel", "dataclasses.dataclass", "typing.TypedDict"]),
+    }
+    if case["container"] != "components/schemas" and rng.chance(1, 4):
+        # cross-file: some definitions live in other.json; only what main.json reaches is generated,
+        # so the root object references every definition
+        case["files"] = [rng.below(2) for _ in range(n)]
+        case["root_refs"] = list(range(n))
+    return case
+
+
+E2E_CORPUS = [
+    {"container": "definitions", "keys": ["Pet", "pet", "Pet_", "Pets-item"], "edges": [[0, 1, "ref"], [1, 0, "ref"], [0, 0, "ref"], [2, 3, "array"]], "root_refs": [0, 1, 2, 3]},
+    {"container": "definitions", "keys": ["Pets-item", "Pet_", "pet", "Pet"], "edges": [[0, 1, "ref"], [1, 0, "ref"], [3, 3, "ref"]], "root_refs": []},
+    {"container": "$defs", "keys": ["Optional", "optional"], "edges": [[0, 1, "ref"]], "root_refs": []},
+    {"container": "$defs", "keys": ["Optional", "BaseModel", "Pet"], "edges": [[0, 1, "ref"], [1, 0, "ref"]], "root_refs": [0, 1, 2]},
+    {"container": "components/schemas", "keys": ["Pet", "pet", "PetModel"], "edges": [[0, 1, "ref"], [1, 2, "ref"], [2, 0, "array"]], "root_refs": []},
+    {"container": "definitions", "keys": ["Pet", "pet"], "edges": [[0, 1, "deep"], [1, 1, "ref"]], "root_refs": [0]},
+    {"container": "definitions", "keys": ["Pet", "pet", "Pet_"], "edges": [[0, 1, "ref"], [1, 2, "ref"], [2, 0, "ref"]], "root_refs": [0, 1, 2], "files": [1, 1, 0]},
+]
+
+
+def ring_edges(n: int) -> list:
+    """forward, mutual and self references on n definitions"""
+    e = [[i, (i + 1) % n, "ref"] for i in range(n)] + [[0, 0, "ref"]]
+    if n > 2:
+        e.append([1, 0, "array"])
+    return e
+
+
+def campaign_e2e(ck: Check, n: int, label: str = "", extra: list | None = None) -> None:
+    camp = ck.campaign("e2e: one class per definition, distinct names, every $ref member names the class of its target" + label)
+    t0 = time.time()
+    rng = ck.rng.fork("e2e" + label)
+    for case in E2E_CORPUS + list(extra or []):
+        e2e_oracle(ck, camp, case)
+    for _ in range(n):
+        case = gen_e2e_case(rng)
+        # the same definitions in a second, permuted document order (edges keep pointing at the same keys)
+        e2e_oracle(ck, camp, case)
+        perm = rng.shuffle(list(range(len(case["keys"]))))
+        inv = {old: new for new, old in enumerate(perm)}
+        permuted = dict(case, keys=[case["keys"][i] for i in perm], edges=[[inv[i], inv[j], k] for i, j, k in case["edges"]], root_refs=[inv[i] for i in case["root_refs"]])
+        if "files" in case:
+            permuted["files"] = [case["files"][i] for i in perm]
+        e2e_oracle(ck, camp, permuted)
+    camp.wall_s = time.time() - t0
+
+
+def campaign_e2e_exhaustive(ck: Check, keys_pool: list[str], max_defs: int, label: str) -> None:
+    """all key subsets of size 2..max_defs of `keys_pool`, in ALL document orders, three containers"""
+    camp = ck.campaign(f"e2e exhaustive: all subsets (size 2..{max_defs}) of {len(keys_pool)} colliding keys in all orders" + label)
+    t0 = time.time()
+    for k in range(2, max_defs + 1):
+        for subset in itertools.combinations(keys_pool, k):
+            for perm in itertools.permutations(range(k)):
+                for cont in E2E_CONTAINERS:
+                    keys = [subset[i] for i in perm]
+                    inv = {old: new for new, old in enumerate(perm)}
+                    e2e_oracle(ck, camp, {
+                        "container": cont, "keys": keys,
+                        "edges": [[inv[i], inv[j], kind] for i, j, kind in ring_edges(k)],
+                        "root_refs": [inv[0]] if k % 2 else [],
+                    })
+                    if len(ck.failures) > 20:
+                        camp.wall_s = time.time() - t0
+                        return
+    camp.wall_s = time.time() - t0
+
+
+# ------------------------------------------------------------------ targeted search (only when something broke)
+def names_of_sequences(cases: list[dict]) -> list[str]:
+    out: list[str] = []
+    for c in cases:
+        for op in c.get("ops", []):
+            cand = None
+            if op["op"] == "add":
+                cand = op["orig"] or (op["path"][-1] if op["path"] else None)
+            elif op["op"] == "addref":
+                cand = op["ref"].rsplit("/", 1)[-1]
+            elif "arg" in op:
+                a = op["arg"]
+                cand = (a["s"].rsplit("/", 1)[-1]) if "s" in a else (a["q"][-1] if a["q"] else None)
+            if cand and cand not in out and all(ch not in cand for ch in "#/~.") and cand.isascii():
+                out.append(cand)
+        out += [x for x in c.get("excl", []) if x not in out]
+    return out
+
+
+def search_embed_disagreements(ck: Check) -> None:
+    """DESIGN §2.5: the names of every disagreeing operation sequence become definition keys of
+    complete documents (all orders, three containers, forward/mutual/self references); then a wider
+    seeded e2e campaign; then the exhaustive small scope."""
+    seqs = [d.input for d in ck.disagreements if isinstance(d.input, dict) and "ops" in d.input]
+    mods = [d.input for d in ck.disagreements if isinstance(d.input, dict) and "models" in d.input]
+    keys = names_of_sequences(seqs)
+    for m in mods:
+        keys += [x for x in m["imports"] + [c for _, c, _ in m["models"]] if x not in keys and x.isascii()]
+    keys = keys[:7]
+    if len(keys) >= 2:
+        campaign_e2e_exhaustive(ck, keys, min(3, len(keys)), " [search: keys of the disagreeing sequences]")
+        if ck.failures:
+            return
+    campaign_e2e(ck, 250, " [search]")
+    if ck.failures:
+        return
+    campaign_e2e_exhaustive(ck, CORE_KEYS[:6] + ["BaseModel"], 3, " [search]")
+
+
+def known_findings(ck: Check) -> None:
+    """Re-run the stored witness of every open finding; print KNOWN-FINDING when it still fails."""
+    for f in ck.findings:
+        probe = Check(ck.prop, ck.tier)
+        probe.findings = []
+        camp = probe.campaign("witness")
+        e2e_oracle(probe, camp, f["witness"])
+        if probe.failures:
+            ck.known(f["id"], f["what"])
+
+
 def run(ck: Check) -> None:
     quick = ck.tier == "quick"
     ck.translate(c06_tables.GEN_NAME, c06_tables.generate())
     ck.prove()
-    campaign_sequences(ck, 300 if quick else 3000)
+    ck.assumptions += [
+        "Dcg/Model/Resolver.lean restates ModelResolver (add_ref/add/get/delete/get_class_name/_get_unique_name/join_path/resolve_ref) "
+        "and Parser.__replace_duplicate_name_in_module; agreement is tested in this run after every operation of random sequences",
+        "modelled region: default resolver options plus exclude_names / duplicate_name_suffix / singular_name_suffix; ASCII names; "
+        "local pointers, '#', plain relative file references; URLs, base_url, $id/anchors, root_id, remove_suffix_number, "
+        "parent_scoped_naming are outside the model (answered `unmodelled`, counted)",
+        "inflect (get_singular_name) is an oracle parameter: the answers of the real function are handed to the model",
+        "pathlib on POSIX without symlinks below the base path",
+        "theorems hold for every class-name generator; `name_is_classform` speaks of that function, the concrete default form is only tested",
+    ]
+    campaign_sequences(ck, 400 if quick else 3000)
     campaign_functions(ck, 300 if quick else 3000)
     campaign_modpass(ck, 300 if quick else 3000)
+    campaign_e2e(ck, 100 if quick else 600)
+    if not quick:
+        campaign_e2e_exhaustive(ck, CORE_KEYS, 4, "")
+    ck.search_hooks.append(search_embed_disagreements)
+    known_findings(ck)
 
 
 def replay(ck: Check, path: str) -> int:
-    return 0
+    data = json.loads(open(path).read())
+    inp = data.get("input") or (data.get("first_disagreement") or {}).get("input") or {}
+    if "container" in inp:
+        camp = ck.campaign("replay")
+        e2e_oracle(ck, camp, inp)
+        for f in ck.failures:
+            print("REPLAY-FAILS:", json.dumps(f.classification), f.observed[:300])
+        if not ck.failures:
+            print("replay: the oracle does not fail on this input" + (" (matches a known finding)" if ck.known_hits else ""))
+        return 1 if ck.failures else 0
+    if "ops" in inp:
+        campaign_sequences(ck, 0, " [replay]", cases=[inp])
+    elif "models" in inp:
+        simple_campaign(ck, "replay: per-module pass", [inp],
+                        lambda c: f"res.modpass {enc_strs(c['imports'])} ({' '.join('(' + ' '.join(hx(x) for x in m) + ')' for m in c['models'])})",
+                        real_modpass)
+    else:
+        print("replay: nothing to replay in this file")
+        return 2
+    for d in ck.disagreements:
+        print("REPLAY-DISAGREES:", d.campaign, "model=", str(d.model)[:300], "impl=", str(d.impl)[:300])
+    if not ck.disagreements:
+        print("replay: model and implementation agree on this input")
+    return 1 if ck.disagreements else 0
